@@ -1,6 +1,9 @@
 package main
 
 import (
+	"crypto/sha1"
+	"encoding/hex"
+	"strings"
 	"flag"
 	"fmt"
 	"math/rand"
@@ -25,7 +28,17 @@ func npMain(args []string) error {
 		return err
 	}
 	rng := rand.New(rand.NewSource(*seed))
-	formats := []string{"name%d", "stmt_%d_x", "%d", "fixed", "%s", "%d-%d", "%08d"}
+	formats := []string{"name%d", "stmt_%d_x", "%d", "fixed", "%s", "%d-%d", "%08d",
+		// formats longer than any identifier limit: the text is still the format applied to the id
+		strings.Repeat("p", 254) + "%d", strings.Repeat("q", 300) + "_%d_" + strings.Repeat("r", 40)}
+	// long texts are logged as a digest (equal digests <=> equal texts)
+	short := func(t string) string {
+		if len(t) <= 64 {
+			return t
+		}
+		h := sha1.Sum([]byte(t))
+		return "sha1:" + hex.EncodeToString(h[:])
+	}
 	var reused, acquired int64
 	for sc := 0; sc < *rounds; sc++ {
 		n := []int{1, 2, 3, 8, 16, 64}[rng.Intn(6)]
@@ -33,6 +46,9 @@ func npMain(args []string) error {
 			n = 64
 		}
 		format := formats[rng.Intn(len(formats))]
+		if sc == 1 {
+			format = formats[7+rng.Intn(2)]
+		}
 		procs := []int{1, 2, 4, 16}[rng.Intn(4)]
 		old := runtime.GOMAXPROCS(procs)
 		tr.Reset(map[string]interface{}{"driver": "np", "goroutines": n, "format": format, "gomaxprocs": procs})
@@ -56,7 +72,7 @@ func npMain(args []string) error {
 					for j := 0; j < k; j++ {
 						nm := pool.Acquire()
 						id, text := nm.ID(), nm.Name()
-						tr.Emit(Ev{"ev": "AcqEnd", "g": g, "id": int(id), "text": text,
+						tr.Emit(Ev{"ev": "AcqEnd", "g": g, "id": int(id), "text": short(text),
 							"textok": text == fmt.Sprintf(format, id) && nm.String() == text})
 						if _, dup := seen.LoadOrStore(id, true); dup {
 							atomic.AddInt64(&reused, 1)
@@ -72,7 +88,7 @@ func npMain(args []string) error {
 					}
 					for _, nm := range names {
 						id, text := nm.ID(), nm.Name()
-						tr.Emit(Ev{"ev": "RelStart", "g": g, "id": int(id), "text": text})
+						tr.Emit(Ev{"ev": "RelStart", "g": g, "id": int(id), "text": short(text)})
 						pan := false
 						func() {
 							defer func() {
